@@ -225,7 +225,7 @@ def r4_raii(ctx, F):
                       "raw %s trampoline used by an instruction handler or the RAII iterator" % op,
                       "raw `%s` trampoline called outside the instruction handlers / StarlarkIterator: the "
                       "acquire/release pairing is no longer guaranteed by construction" % op, fn=f, line=c.line)
-    ctx.floor("C12.R4", "raw iterate/iter_stop call sites", n, 8)
+    ctx.floor("C12.R4", "raw iterate/iter_stop call sites", n, 8, inventory=True)
     # RAII: StarlarkIterator::next stops on exhaustion, Drop stops otherwise
     nx = F.one(r"<values::iter::StarlarkIterator<'v> as std::iter::Iterator>::next$")
     nxt = calls_by_name(nx, TRAMP % "iter_next")
